@@ -1,114 +1,98 @@
+mod batch;
+mod checks;
 mod compare;
+mod components;
+mod evmasm;
 mod evmenv;
+mod faultgen;
 mod hook;
+mod known;
+mod minimise;
 mod monitor;
 mod norm;
+mod oracle;
+mod paths;
 mod precompiles;
 mod prng;
 mod reference;
+mod replayfile;
 mod run;
 mod scenario;
+mod selfcheck;
 mod simdb;
 mod simsched;
+mod workload;
 
-use grevm::ParallelTakeBundle;
-use revm_database::states::bundle_state::BundleRetention;
-use revm_primitives::{Address, B256, Bytes, U256, hardfork::SpecId};
-use scenario::*;
-use std::sync::Arc;
+use checks::Tier;
+use std::path::Path;
 
-fn addr(n: u64) -> Address {
-    Address::from_word(B256::from(U256::from(n)))
+fn seed_from_env() -> u64 {
+    std::env::var("VERIF_SEED").ok().and_then(|s| s.parse().ok()).unwrap_or(checks::DEFAULT_SEED)
 }
 
-fn smoke_scenario() -> Scenario {
-    let eoas: Vec<Address> = (1..=4).map(|i| addr(0x1000 + i)).collect();
-    let pre_state = eoas
-        .iter()
-        .map(|a| AccountSpec { address: *a, balance: U256::from(10u64).pow(U256::from(18)), nonce: 0, code: Bytes::new(), storage: vec![] })
-        .collect();
-    let mut txs = Vec::new();
-    for i in 0..5usize {
-        let from = eoas[i % 2];
-        txs.push(TxSpec {
-            caller: from,
-            to: Some(eoas[(i + 1) % 4]),
-            value: U256::from(1000 + i as u64),
-            data: Bytes::new(),
-            gas_limit: 50_000,
-            gas_price: 10,
-            priority_fee: None,
-            nonce: (i / 2) as u64,
-            chain_id: Some(1),
-            tx_type: 0,
-            auths: vec![],
-            access_list: vec![],
-            label: "transfer".into(),
-        });
-    }
-    Scenario {
-        evm: EvmSpec { spec: SpecId::SHANGHAI, chain_id: 1, disable_nonce_check: false },
-        block: BlockSpec {
-            number: 100,
-            beneficiary: addr(0xc0ffee),
-            timestamp: 1_700_000_000,
-            gas_limit: 30_000_000,
-            basefee: 7,
-            prevrandao: B256::ZERO,
-            difficulty: U256::ZERO,
-        },
-        pre_state,
-        block_hashes: vec![],
-        txs,
-        grevm: GrevmSpec { concurrency: 3, min_parallel_txs: 0, force_sequential: false, forbid_delegated_create: false, reserve_delegated_balance: false },
-        warm_cache: false,
-        bundle_update: true,
-        faults: vec![],
-        precompiles: vec![],
-        callers: vec![vec![Entry::Execute]],
-        second: None,
-        profile: "smoke".into(),
-    }
+fn usage() -> ! {
+    eprintln!("usage: sim check <ID> <quick|thorough> | sim replay <file> | sim selfcheck determinism [runs] | sim case <ID> <tier> <idx> | sim gen <ID> <tier> <idx>");
+    std::process::exit(2)
 }
 
 fn main() {
-    let scenario = Arc::new(smoke_scenario());
-    // reference
-    let db = simdb::SimDb::from_scenario(&scenario, true, true);
-    let mut state = reference::new_ref_state(&db, true);
-    let rb = reference::run_reference_block(&mut state, &scenario.evm, &scenario.block, &scenario.txs, &[], true);
-    let ref_bundle = reference::take_ref_bundle(&mut state, BundleRetention::Reverts);
-    println!("reference: {} steps, error {:?}", rb.steps.len(), rb.error);
-    let expected: Vec<_> = rb.steps.iter().map(|s| s.outcome.clone()).collect();
-    let steps = Arc::new(rb.steps);
-
-    let n: u64 = std::env::args().nth(1).and_then(|s| s.parse().ok()).unwrap_or(10);
-    let start = std::time::Instant::now();
-    let mut hashes = std::collections::HashSet::new();
-    for seed in 0..n {
-        let sched = SchedSpec { seed, strategy: (seed % 3) as u8, p1: 700, p2: 2000, p3: 0, strict: true, spurious_per_1024: 0, buggify: 0, n1: 200_000, n2: 200_000 };
-        let opts = run::RunOptions { record_trace: false, record_log: false, expected_first: Some(steps.clone()), expected_second: None };
-        let r = run::run_sim(&scenario, &sched, None, &opts);
-        hashes.insert(r.trace_hash);
-        match r.verdict {
-            run::Verdict::Completed(out) => {
-                let mut out = *out;
-                let bundle = out.first.state.parallel_take_bundle(BundleRetention::Reverts);
-                let d1 = compare::diff_outcomes(&out.first.outcomes, &expected);
-                let d2 = compare::diff_bundles(&bundle, &ref_bundle);
-                if seed < 5 || d1.is_some() || d2.is_some() || !r.monitor.violations.is_empty() {
-                    println!(
-                        "seed {seed}: calls {:?} decisions {} steps {} reexec {} valconf {} viol {:?} d1 {:?} d2 {:?}",
-                        out.first.calls.iter().map(|c| format!("{:?}", c.outcome)).collect::<Vec<_>>(),
-                        r.sched.decisions, r.steps, r.monitor.probes.reexecutions, r.monitor.probes.validation_conflicts,
-                        r.monitor.violations, d1, d2
-                    );
-                }
-            }
-            run::Verdict::Deadlock(m) => println!("seed {seed}: DEADLOCK {m}"),
-            run::Verdict::StepBound => println!("seed {seed}: STEP BOUND"),
-            run::Verdict::HarnessError(m) => println!("seed {seed}: HARNESS ERROR {m}"),
-        }
+    let args: Vec<String> = std::env::args().collect();
+    if args.len() < 2 {
+        usage();
     }
-    println!("{} runs in {:?}, {} distinct trace hashes", n, start.elapsed(), hashes.len());
+    let code = match args[1].as_str() {
+        "check" => {
+            if args.len() < 4 {
+                usage();
+            }
+            let tier = match std::env::var("VERIF_TIER").ok().as_deref().unwrap_or(args[3].as_str()) {
+                "thorough" => Tier::Thorough,
+                _ => Tier::Quick,
+            };
+            let tier = if args[3] == "thorough" { Tier::Thorough } else { tier };
+            let seed = seed_from_env();
+            println!("VERIF_SEED={seed} check={} tier={}", args[2], tier.name());
+            let id = args[2].as_str();
+            if checks::PIPELINE_CHECKS.contains(&id) {
+                checks::run_pipeline_check(id, tier, seed)
+            } else {
+                eprintln!("unknown check {id}");
+                2
+            }
+        }
+        "replay" => {
+            if args.len() < 3 {
+                usage();
+            }
+            checks::replay(Path::new(&args[2]))
+        }
+        "selfcheck" => {
+            let runs = args.get(3).and_then(|s| s.parse().ok()).unwrap_or(200);
+            selfcheck::determinism(seed_from_env(), runs, &args)
+        }
+        "case" | "gen" => {
+            if args.len() < 5 {
+                usage();
+            }
+            let tier = if args[3] == "thorough" { Tier::Thorough } else { Tier::Quick };
+            let idx: u64 = args[4].parse().unwrap();
+            let plan = checks::plan_pipeline_case(&args[2], tier, seed_from_env(), idx);
+            if args[1] == "gen" {
+                println!("{}", serde_json::to_string_pretty(&plan.scenario.to_json()).unwrap());
+                println!("{}", plan.sched.to_json());
+                0
+            } else {
+                hook::ensure_installed();
+                let out = oracle::run_pipeline_case(&plan.scenario, &plan.sched, None, &plan.want);
+                println!("group={} summary={}", plan.group, out.summary);
+                println!("stats: decisions={} steps={} probes={:?}", out.stats.decisions, out.stats.steps, out.stats.probes);
+                for f in &out.findings {
+                    println!("FINDING property={} class={} detail={}", f.property, f.class, f.detail);
+                }
+                0
+            }
+        }
+        _ => usage(),
+    };
+    std::process::exit(code);
 }
